@@ -238,6 +238,7 @@ func Run(j *job.Job, s *job.Sink) {
 			}
 			return out
 		}
+		var removeLater []string
 		ignoreNS := r.Intn(6) == 0 // run with the ignore-not-supported option
 		wantErr := ""
 		nd := 1 + r.Intn(3)
@@ -250,7 +251,15 @@ func Run(j *job.Job, s *job.Sink) {
 				switch tpl := r.Intn(4); {
 				case tpl == 0:
 					steps := strings.Split(t.devPath(), "/")
-					steps[1+r.Intn(len(steps)-1)] = "bb:zz9"
+					if t.parent == "ca" && r.Intn(2) == 0 {
+						// a path that leaves out the choice and the case the node lives in (a
+						// data-tree path, not a schema path): the schema has no such node
+						steps = []string{"", "bb:" + t.name}
+					} else if t.parent == "late" && r.Intn(2) == 0 {
+						steps = append([]string{""}, steps[len(steps)-2:]...) // /bb:alt/aa:<name>: without choice and case
+					} else {
+						steps[1+r.Intn(len(steps)-1)] = "bb:zz9"
+					}
 					// what the deviation would do does not matter: its target is missing (not-supported
 					// alone is the interesting one under the ignore option, which must not make the
 					// missing target disappear too)
@@ -287,6 +296,7 @@ func Run(j *job.Job, s *job.Sink) {
 			targeted[t.name] = true
 			path := t.devPath()
 			again := ""
+			errBefore := wantErr
 			fmt.Fprintf(devText, "  deviation %s {\n", path)
 			cur := exp[t.name]
 			k := 1 + r.Intn(3)
@@ -505,11 +515,30 @@ func Run(j *job.Job, s *job.Sink) {
 				}
 				devText.WriteString(" }\n")
 			}
+			// A deviate of this deviation cannot be applied, and the node it names is removed
+			// afterwards - by the same deviation, by a later one of the same module, or by
+			// the last deviating module. The error is to be reported all the same (a seeded
+			// change kept such errors on the node, where they went away with it).
+			if errBefore == "" && wantErr != "" && wantErr != "missing-target" && !cur.removed && r.Intn(2) == 0 {
+				switch r.Intn(3) {
+				case 0:
+					devText.WriteString("    deviate not-supported;\n")
+				case 1:
+					again = fmt.Sprintf("  deviation %s { deviate not-supported; }\n", path)
+				default:
+					defer0 := fmt.Sprintf("  deviation %s { deviate not-supported; }\n", path)
+					removeLater = append(removeLater, defer0)
+				}
+				s.Count("inapplicable_deviates_on_a_node_removed_afterwards", 1)
+			}
 			devText.WriteString("  }\n")
 			if again != "" {
 				devText.WriteString(again)
 				again = ""
 			}
+		}
+		for _, rl := range removeLater {
+			texts[ndm-1].WriteString(rl)
 		}
 		for mi := range texts {
 			texts[mi].WriteString("}\n")
